@@ -131,6 +131,34 @@ class EmuCheck(Check):
                     k += 1
         return out
 
+    def alias_programs(self, rng, tier):
+        """every three-register instruction (ALU, M, atomics) and every store / branch with all patterns of equal registers
+        (rd = rs1 = rs2, rs1 = rs2, rd = rs1, rd = rs2, all different); register values are full 64-bit numbers (as data
+        AND as addresses above 4 GiB) supplied by the provider or preset"""
+        out, k = [], 0
+        pats = [(6, 6, 6), (7, 6, 6), (6, 6, 7), (6, 7, 6), (5, 6, 7), (0, 6, 6), (6, 0, 6)]
+        for t in T:
+            if not valid_in(t, 64, "MA") or t["fmt"] not in ("R", "AMO", "S", "B"):
+                continue
+            for (rd, rs1, rs2) in pats:
+                if t["fmt"] == "AMO":
+                    w = r_type(t["op"], t["f3"], (t["f7"] << 2) | rng.randrange(4), rd, rs1, 0 if t["name"].startswith("lr") else rs2)
+                elif t["fmt"] == "R":
+                    w = r_type(t["op"], t["f3"], t["f7"], rd, rs1, rs2)
+                elif t["fmt"] == "S":
+                    w = s_type(t["op"], t["f3"], rs1, rs2, rng.choice([0, 8, -8]))
+                else:
+                    w = b_type(t["op"], t["f3"], rs1, rs2, 8)
+                base = CODE_BASES[k % len(CODE_BASES)]
+                regs0 = {}
+                if k % 3 == 0:
+                    regs0["x6"] = le8(0x1_0000_2000 + 8 * (k % 50))
+                elif k % 3 == 1:
+                    regs0["x6"] = le8(rng.getrandbits(64) & ~7)
+                out.append(self.program_group("al%d" % k, [w, 0x00000013, 0x00000013], base, regs0, rng.randrange(1 << 30), 2))
+                k += 1
+        return out
+
     def mnemonic_programs(self, rng, tier):
         out = []
         reps = 1 if tier == "quick" else 6
@@ -200,8 +228,8 @@ class EmuCheck(Check):
 
     def all_groups(self, tier, seed):
         rng = random.Random(seed * 141650939 + 3)
-        return (self.access_programs(rng, tier, seed) + self.writeback_programs(rng, tier) + self.mnemonic_programs(rng, tier)
-                + self.random_programs(rng, tier))
+        return (self.access_programs(rng, tier, seed) + self.writeback_programs(rng, tier) + self.alias_programs(rng, tier)
+                + self.mnemonic_programs(rng, tier) + self.random_programs(rng, tier))
 
     def nontrivial_key(self, group, events):
         steps = [e for e in events if e["op"] == "step" and not e["err"] and not e["panic"]]
